@@ -1,0 +1,23 @@
+//go:build verif
+// +build verif
+
+package lorawan
+
+// This file is only compiled with the build tag "verif".
+
+// VerifResetMACPayloadRegistry removes every proprietary (CID >= 0x80)
+// registration from the MAC payload registry, so that the verification
+// harness can start each generated registration history from the initial
+// state. The public API can add or override a registration, never remove one.
+func VerifResetMACPayloadRegistry() {
+	macPayloadMutex.Lock()
+	defer macPayloadMutex.Unlock()
+
+	for _, m := range macPayloadRegistry {
+		for cid := range m {
+			if cid >= 128 {
+				delete(m, cid)
+			}
+		}
+	}
+}
